@@ -288,7 +288,7 @@ func (s *Sched) runThread(t *mthread) {
 	t.resume <- struct{}{}
 	select {
 	case <-s.yield:
-	case <-time.After(20 * time.Second):
+	case <-time.After(60 * time.Second):
 		s.Stalled = true
 		panic(schedStall{})
 	}
@@ -447,7 +447,11 @@ func (s *Sched) Run() {
 		if s.last != nil {
 			sort.SliceStable(en, func(i, j int) bool { return s.involves(en[i], s.last) && !s.involves(en[j], s.last) })
 		}
-		tr := en[s.x.Choose(len(en), cls)]
+		// (a forced move is not a choice point: a sequential command leaves the same trace with or without a scheduler)
+		tr := en[0]
+		if len(en) > 1 {
+			tr = en[s.x.Choose(len(en), cls)]
+		}
 		s.Trace = append(s.Trace, tr.label)
 		switch tr.kind {
 		case "arrive":
